@@ -7,10 +7,30 @@ DENY_PREFIX = ('std::time', 'std::env', 'std::fs', 'std::net', 'std::thread', 's
 ALLOW_CRATES = ('core', 'alloc', 'std', 'byteorder', 'hex', 'const_oid', 'compiler_builtins')
 
 
-def p_pure(cx, rule, inst, roots, extra_allow_crates=()):
+def p_pure(cx, rule, inst, roots, extra_allow_crates=(), stop=()):
     """the result of `roots` is a function of their arguments: no unsafe, no mutable/interior-mutable static,
-    no pointer->integer cast, no callee with ambient effects in the workspace call closure"""
+    no pointer->integer cast, no callee with ambient effects in the workspace call closure.  `stop`: last names of
+    functions that are not entered (the random samplers: the rest of a randomised operation must still be stateless)"""
     seen, ext = cx.F.closure(roots)
+    if stop:
+        seen, ext = set(), set()
+        work = list(roots)
+        while work:
+            n = work.pop()
+            if n in seen or last(n) in stop:
+                continue
+            f = cx.F.fns.get(n)
+            if f is None:
+                ext.add(n)
+                continue
+            seen.add(n)
+            for b, t in f.calls():
+                if t['fn']['k'] == 'def':
+                    work.append(t['fn']['name'])
+            for _, _, stt in f.stmts():
+                rv = stt.get('rv')
+                if rv and rv['k'] == 'aggr' and rv.get('akind') == 'closure':
+                    work.append(rv['closure'])
     problems = []
     for n in sorted(seen):
         f = cx.F.fns[n]
